@@ -17,19 +17,19 @@ def pcName : Pc → String
   | .waking _ _ => "waking" | .openSend _ _ => "openSend" | .wqCs _ _ => "wqCs" | .wtCs _ _ _ => "wtCs" | .wtUnpark _ _ => "wtUnpark"
   | .lwCs _ _ => "lwCs" | .dwCs _ _ => "dwCs"
   | .dsPush _ _ => "dsPush" | .dsSched _ => "dsSched"
-  | .syDecide _ _ => "syDecide" | .tsDecide _ _ => "tsDecide" | .siIdle _ => "siIdle" | .sdPush _ _ => "sdPush" | .sdCheck _ _ => "sdCheck" | .sdIdle _ => "sdIdle"
+  | .syDecide _ _ => "syDecide" | .tsDecide _ _ => "tsDecide" | .siIdle _ _ => "siIdle" | .sdPush _ _ => "sdPush" | .sdCheck _ _ => "sdCheck" | .sdIdle _ => "sdIdle"
   | .sbReg _ _ => "sbReg" | .sbPush _ _ => "sbPush" | .sbLockReady _ _ => "sbLockReady" | .sbTest _ _ => "sbTest" | .sbClaim _ _ => "sbClaim"
   | .sbClaimRel _ _ _ => "sbClaimRel" | .sbRelReady _ _ => "sbRelReady" | .sbStealTest _ _ => "sbStealTest" | .sbStealIdle _ _ => "sbStealIdle"
   | .sbWait _ _ => "sbWait" | .sbWaiting _ _ => "sbWaiting" | .sbDone _ _ => "sbDone" | .sbDropCv _ => "sbDropCv" | .sbPrune _ => "sbPrune"
   | .rjDequeue _ _ => "rjDequeue" | .rjPending _ _ _ => "rjPending" | .rjParkCheck _ _ _ => "rjParkCheck" | .rjPark _ _ _ => "rjPark" | .rjParked _ _ _ => "rjParked"
-  | .jobStart _ _ _ _ => "jobStart" | .jobAwait _ _ _ _ => "jobAwait" | .jobBodyDone _ _ => "jobBodyDone" | .jobEnd _ _ => "jobEnd"
-  | .jobSignal _ _ => "jobSignal" | .jobSigDrop _ _ => "jobSigDrop" | .jobDrop _ _ => "jobDrop" | .jobDropNotify _ _ => "jobDropNotify"
+  | .jobStart _ _ _ => "jobStart" | .jobAwait _ _ _ => "jobAwait" | .jobBodyDone _ _ _ => "jobBodyDone" | .jobEnd _ _ _ => "jobEnd"
+  | .jobSignal _ _ _ => "jobSignal" | .jobSigDrop _ _ _ => "jobSigDrop" | .jobDrop _ _ _ => "jobDrop" | .jobDropNotify _ _ _ => "jobDropNotify"
   | .ptRecv _ => "ptRecv" | .ptRecvd _ => "ptRecvd" | .ptLockBusy _ => "ptLockBusy" | .ptLockSched _ => "ptLockSched" | .ptPop _ => "ptPop"
   | .ptUnlockSched _ _ => "ptUnlockSched" | .ptUnlockBusy _ _ => "ptUnlockBusy" | .pdDequeue _ _ => "pdDequeue" | .pdRequeue _ _ _ => "pdRequeue"
   | .pdPending _ _ => "pdPending" | .pdExit _ _ => "pdExit"
-  | .pfPoll _ => "pfPoll" | .pfPollRel _ _ => "pfPollRel" | .pfBlocked _ => "pfBlocked" | .dqCheck _ => "dqCheck" | .dqDequeue _ => "dqDequeue"
-  | .dqRequeue _ _ _ => "dqRequeue" | .dqCheck2 _ _ => "dqCheck2" | .dqSetWfw _ _ => "dqSetWfw" | .dqStore _ _ => "dqStore" | .dqSetWfp _ _ => "dqSetWfp"
-  | .dqWakeWith _ _ _ _ => "dqWakeWith" | .dqStore2 _ => "dqStore2" | .dqIdle2 _ => "dqIdle2" | .dqIdle _ => "dqIdle" | .fsTake _ => "fsTake" | .fsTake2 _ => "fsTake2"
+  | .pfPoll _ => "pfPoll" | .pfPollRel _ _ => "pfPollRel" | .pfBlocked _ => "pfBlocked" | .dqCheck _ _ => "dqCheck" | .dqDequeue _ _ => "dqDequeue"
+  | .dqRequeue _ _ _ _ => "dqRequeue" | .dqCheck2 _ _ _ => "dqCheck2" | .dqSetWfw _ _ _ => "dqSetWfw" | .dqStore _ _ _ => "dqStore" | .dqSetWfp _ _ _ => "dqSetWfp"
+  | .dqWakeWith _ _ _ _ => "dqWakeWith" | .dqStore2 _ _ => "dqStore2" | .dqIdle2 _ _ => "dqIdle2" | .dqIdle _ _ => "dqIdle" | .fsTake _ => "fsTake" | .fsTake2 _ => "fsTake2"
   | .smSet _ => "smSet" | .dpRead => "dpRead" | .dpPop _ => "dpPop" | .dpJoin _ => "dpJoin"
 
 def allPcNames : List String :=
